@@ -114,6 +114,7 @@ type Profile struct {
 	Adversarial int // percent of events drawn from the adversarial pool
 	Replicas    []int64  // replica counts for new stores (default 1..3)
 	LateNodes   []string // accounts that may register as nodes later in the trace
+	ForcePush   int      // percent of updates that are force-pushes (default 25)
 	Staking     bool     // run x/staking's end-blocker too (profiles with staking messages)
 	ShortBlocks bool     // keep block advances short (reward traces stay inside the exact fragment)
 }
@@ -330,7 +331,11 @@ func (d *Driver) Next() Event {
 			}
 			cr, pv := d.gatewayFor(d.R)
 			op := int64(1)
-			if d.R.Intn(4) == 0 {
+			fp := d.P.ForcePush
+			if fp == 0 {
+				fp = 25
+			}
+			if d.R.Intn(100) < fp {
 				op = 2
 			}
 			return Event{Kind: "Store", Creator: cr, Provider: pv, Gw: pv, Owner: signer, Signer: signer, Data: m.Data, Commit: m.Commit + "|" + newc, Op: op, Dur: d.pickI(d.P.Durs), Replica: int64(1 + d.R.Intn(3)), Timeout: d.pickI(d.P.Timeouts), Size: d.pickI(d.P.Sizes), Alias: m.Alias}
